@@ -40,10 +40,14 @@ ImplDesigned ==
       ackOnReceipt          |-> FALSE,  \* F1: client acknowledges mutate messages it only buffered
       periodicAckSwallow    |-> FALSE,  \* F4: ack of a message advances the tick past an unsent periodic change
       periodicBumpSwallow   |-> FALSE,
+      lateJoinerMissesEmpty |-> FALSE,  \* F21: an entity without replicated components is not sent to a client that connects later
       ackDiscarded          |-> FALSE,  \* F19: a message whose data was discarded as outdated is still acknowledged  \* F18: a structural change advances the tick past an unsent periodic change
       emptyMutateWithGraphs |-> FALSE,  \* F11: empty mutate message per tick once relation graphs exist
       refBeforeSpawnUnmarked|-> FALSE,  \* F8: entity first seen as a reference never gets the marker
-      seedLeakHidden        |-> FALSE ] \* seeded defect (no finding): hidden entities are not filtered from changes
+      seedLeakHidden        |-> FALSE,  \* seeded defect (no finding): hidden entities are not filtered from changes
+      seedEvNoQueue         |-> FALSE,  \* seeded: the client hands dependent events to game logic without waiting for their tick
+      seedEvNoExclude       |-> FALSE,  \* seeded: a late joiner is not excluded from already buffered events
+      seedEvUnauth          |-> FALSE ] \* seeded: dependent events are flushed to unauthorized clients
 
 Comp == {"A", "B", "P", "O"}
 Rate(k) == CASE k = "P" -> "periodic" [] k = "O" -> "once" [] OTHER -> "every"
@@ -294,8 +298,9 @@ ReplicateFor(srv, scl, f) ==
         \* per-entity classification, computed once
         info == [e \in ents |->
             LET comps == srv.world[e].comps
-                newEnt == srv.world[e].markerAdd > srv.lastRun \/ VisState(vis, e) = "Gained"
                 known == e \in DOMAIN mt0
+                newEnt == srv.world[e].markerAdd > srv.lastRun \/ VisState(vis, e) = "Gained"
+                          \/ (~Impl.lateJoinerMissesEmpty /\ ~known)
                 ins == {k \in DOMAIN comps : ~known \/ newEnt \/ comps[k].add > srv.lastRun}
                 changed == {k \in (DOMAIN comps) \ ins : comps[k].chg > mt0[e]}
                 mut == {k \in changed : SendMut(k, srv.tick)}
